@@ -230,3 +230,27 @@ Fixpoint last_write (ops : list uop) (k : N) (acc : option N) : option N :=
   | UInsert k' v :: r => last_write r k (if k =? k' then Some v else acc)
   | URemove k' :: r => last_write r k (if k =? k' then None else acc)
   end.
+
+(* ================================================================== *)
+(* notions used by the theorems                                        *)
+(* ================================================================== *)
+Definition keys (m : list entry) : list N := map fst m.
+
+(* the position of a key in the entries vector *)
+Fixpoint index_of (k : N) (es : list entry) : option nat :=
+  match es with
+  | [] => None
+  | (k', _) :: r => if k =? k' then Some O else option_map S (index_of k r)
+  end.
+
+(* two raw tables hold the same finite map *)
+Definition uequiv (a b : umap) : Prop :=
+  NoDup (keys a) /\ NoDup (keys b) /\ forall k, u_get a k = u_get b k.
+
+(* reduce functions for which aggregate_by is order-free *)
+Definition left_comm (r : N -> N -> N) : Prop := forall a x y, r (r a x) y = r (r a y) x.
+
+(* sort keys that do not tie on the entries of the map *)
+Definition inj_on (f : entry -> N) (m : umap) : Prop := NoDup (map f m).
+
+Definition uins (e : entry) : uop := UInsert (fst e) (snd e).
